@@ -90,6 +90,14 @@ type pathAPIForwardDestGetReq struct {
 	res  chan pathAPIForwardDestGetRes
 }
 
+type pathReloadConfReq struct {
+	conf *conf.Path
+
+	// when the path has moved to a different configuration
+	matchesChanged bool
+	matches        []string
+}
+
 type path struct {
 	parentCtx         context.Context
 	logLevel          conf.LogLevel
@@ -137,7 +145,7 @@ type path struct {
 	onDemandPublisherCloseTimer    *time.Timer
 
 	// in
-	chReloadConf              chan *conf.Path
+	chReloadConf              chan pathReloadConfReq
 	chStaticSourceSetReady    chan defs.PathSourceStaticSetReadyReq
 	chStaticSourceSetNotReady chan defs.PathSourceStaticSetNotReadyReq
 	chDescribe                chan defs.PathDescribeReq
@@ -162,7 +170,7 @@ func (pa *path) initialize() {
 	pa.onDemandStaticSourceCloseTimer = emptyTimer()
 	pa.onDemandPublisherReadyTimer = emptyTimer()
 	pa.onDemandPublisherCloseTimer = emptyTimer()
-	pa.chReloadConf = make(chan *conf.Path)
+	pa.chReloadConf = make(chan pathReloadConfReq)
 	pa.chStaticSourceSetReady = make(chan defs.PathSourceStaticSetReadyReq)
 	pa.chStaticSourceSetNotReady = make(chan defs.PathSourceStaticSetNotReadyReq)
 	pa.chDescribe = make(chan defs.PathDescribeReq)
@@ -327,8 +335,8 @@ func (pa *path) runInner() error {
 		case <-pa.onDemandPublisherCloseTimer.C:
 			pa.doOnDemandPublisherCloseTimer()
 
-		case newConf := <-pa.chReloadConf:
-			pa.doReloadConf(newConf)
+		case req := <-pa.chReloadConf:
+			pa.doReloadConf(req)
 
 		case req := <-pa.chStaticSourceSetReady:
 			pa.doSourceStaticSetReady(req)
@@ -430,10 +438,16 @@ func (pa *path) doOnDemandPublisherCloseTimer() {
 	pa.onDemandPublisherStop("not needed by anyone")
 }
 
-func (pa *path) doReloadConf(newConf *conf.Path) {
+func (pa *path) doReloadConf(req pathReloadConfReq) {
+	newConf := req.conf
+
 	pa.confMutex.Lock()
 	oldConf := pa.conf
 	pa.conf = newConf
+	if req.matchesChanged {
+		pa.matches = req.matches
+		pa.forwardManager.Matches = req.matches
+	}
 	pa.confMutex.Unlock()
 
 	if pa.conf.HasStaticSource() {
@@ -798,8 +812,12 @@ func (pa *path) ExternalCmdEnv() externalcmd.Environment {
 		"RTSP_PORT": port,
 	}
 
-	if len(pa.matches) > 1 {
-		for i, ma := range pa.matches[1:] {
+	pa.confMutex.RLock()
+	matches := pa.matches
+	pa.confMutex.RUnlock()
+
+	if len(matches) > 1 {
+		for i, ma := range matches[1:] {
 			env["G"+strconv.FormatInt(int64(i+1), 10)] = ma
 		}
 	}
@@ -1092,7 +1110,16 @@ func (pa *path) addReaderPost(req defs.PathAddReaderReq) {
 // reloadConf is called by pathManager.
 func (pa *path) reloadConf(newConf *conf.Path) {
 	select {
-	case pa.chReloadConf <- newConf:
+	case pa.chReloadConf <- pathReloadConfReq{conf: newConf}:
+	case <-pa.ctx.Done():
+	}
+}
+
+// reloadConfAndMatches is called by pathManager when the path has moved to a different configuration,
+// that matches its name with different regular expression groups.
+func (pa *path) reloadConfAndMatches(newConf *conf.Path, newMatches []string) {
+	select {
+	case pa.chReloadConf <- pathReloadConfReq{conf: newConf, matchesChanged: true, matches: newMatches}:
 	case <-pa.ctx.Done():
 	}
 }
